@@ -899,3 +899,232 @@ Proof.
   unfold constant_suffix_b.
   destruct (sufwalkB_noerr _ _ _ _ _ _ Hr SUFFIX_BUDGET) as [[b' E] | E]; rewrite E; eauto.
 Qed.
+
+(* ------------------------------------------------------------------ the memo table and the maximum
+   FinH p pc m h: the unfolding of the program from pc is a finite tree of height h without Fail, and m is
+   what both walks compute as its maximum (saturating). A finite computed maximum always comes from such a
+   tree; on such a tree neither walk can run into an alternation of [seen] (those are ancestors: their
+   trees are strictly higher), so both compute m. *)
+Inductive FinH (p : prog) : nat -> N -> nat -> Prop :=
+| FH_match : forall pc rs, lin p (lin_fuel p) pc = Some (rs, LMatch) -> FinH p pc (count rs) O
+| FH_alt : forall pc rs a o g m1 h1 m2 h2, lin p (lin_fuel p) pc = Some (rs, LAlt a o g) ->
+    FinH p o m1 h1 -> FinH p g m2 h2 -> FinH p pc (satadd (count rs) (N.max m1 m2)) (S (Nat.max h1 h2)).
+
+Lemma FinH_det : forall p pc m h, FinH p pc m h -> forall m' h', FinH p pc m' h' -> m = m' /\ h = h'.
+Proof.
+  intros p pc m h H.
+  induction H as [pc rs Hl | pc rs a o g m1 h1 m2 h2 Hl F1 IH1 F2 IH2]; intros m' h' H'.
+  - inversion H' as [pc' rs' Hl' | pc' rs' a' o' g' m1' h1' m2' h2' Hl' F1' F2']; subst; rewrite Hl in Hl'; inversion Hl'; subst; auto.
+  - inversion H' as [pc' rs' Hl' | pc' rs' a' o' g' m1' h1' m2' h2' Hl' F1' F2']; subst; rewrite Hl in Hl'; inversion Hl'; subst.
+    destruct (IH1 _ _ F1') as [E1 E2]. destruct (IH2 _ _ F2') as [E3 E4]. subst. auto.
+Qed.
+
+(* the alternation at which a linear run stops has the tree of the run's start *)
+Lemma lin_at_alt : forall p f pc rs a o g, lin p f pc = Some (rs, LAlt a o g) -> lin p (lin_fuel p) a = Some ([], LAlt a o g).
+Proof.
+  intros p f pc rs a o g H. destruct (lin_spec _ _ _ _ _ H) as [[i [Hg [Ha [Eo Eg]]]] _].
+  unfold lin_fuel. simpl. rewrite Hg. destruct (op i); simpl in Ha; try discriminate; subst; reflexivity.
+Qed.
+
+Lemma count_nil : count [] = 0.
+Proof. reflexivity. Qed.
+
+Lemma FinH_at_alt : forall p pc rs a o g m h, lin p (lin_fuel p) pc = Some (rs, LAlt a o g) -> FinH p pc m h ->
+  exists m', FinH p a m' h.
+Proof.
+  intros p pc rs a o g m h Hl H. inversion H; subst; rewrite Hl in H0; inversion H0; subst.
+  eexists. eapply FH_alt; eauto. eapply lin_at_alt; eauto.
+Qed.
+
+Lemma satadd_fin : forall k a b, satadd k (N.max a b) < MAXU -> a < MAXU /\ b < MAXU.
+Proof. intros k a b H. rewrite satadd_cap in H. unfold cap in H. lia. Qed.
+
+(* a finite maximum comes from a finite tree *)
+Lemma walk_fin : forall p fa pc seen r, walk p fa pc seen = Some r -> snd r < MAXU -> exists h, FinH p pc (snd r) h.
+Proof.
+  induction fa; intros pc seen r H L; [discriminate|]. rewrite walk_S in H.
+  destruct (lin p (lin_fuel p) pc) as [[rs e]|] eqn:Hl; [|discriminate]. cbv zeta in H.
+  destruct e as [a o g| |].
+  - destruct (mem a seen); [inversion H; subst; simpl in L; lia|].
+    destruct (walk p fa o (a :: seen)) as [r1|] eqn:W1; [|discriminate].
+    destruct (walk p fa g (a :: seen)) as [r2|] eqn:W2; [|discriminate].
+    inversion H; subst. unfold combine in *. simpl in *.
+    destruct (satadd_fin _ _ _ L) as [L1 L2].
+    destruct (IHfa _ _ _ W1 L1) as [h1 F1]. destruct (IHfa _ _ _ W2 L2) as [h2 F2].
+    eexists. eapply FH_alt; eauto.
+  - inversion H; subst. simpl. exists O. eapply FH_match; eauto.
+  - inversion H; subst. simpl in L. lia.
+Qed.
+
+Definition cache_fin (p : prog) (c : cache) : Prop :=
+  Forall (fun kv => snd (fst (snd kv)) < MAXU -> exists h, FinH p (fst kv) (snd (fst (snd kv))) h) c.
+
+Lemma walkc_fin : forall p fa entry seen c r ls c', walkc p fa entry seen c = Some (r, ls, c') -> cache_fin p c ->
+  cache_fin p c' /\ (snd r < MAXU -> exists h, FinH p entry (snd r) h).
+Proof.
+  induction fa; intros entry seen c r ls c' H Hc.
+  - rewrite walkc_O in H. unfold cache_hit in H. destruct (lookup entry c) as [[r0 l0]|] eqn:L; [|discriminate].
+    destruct (forallb (fun l => mem l seen) l0); [|discriminate]. inversion H; subst. split; auto.
+    apply lookup_In in L. unfold cache_fin in Hc. rewrite Forall_forall in Hc. apply (Hc _ L).
+  - rewrite walkc_S in H. destruct (cache_hit entry seen c) as [[r0 l0]|] eqn:CH.
+    + unfold cache_hit in CH. destruct (lookup entry c) as [[r1 l1]|] eqn:L; [|discriminate].
+      destruct (forallb (fun l => mem l seen) l1); [|discriminate]. inversion CH; subst. inversion H; subst. split; auto.
+      apply lookup_In in L. unfold cache_fin in Hc. rewrite Forall_forall in Hc. apply (Hc _ L).
+    + clear CH. destruct (lin p (lin_fuel p) entry) as [[rs e]|] eqn:Hl; [|discriminate]. cbv zeta in H.
+      destruct e as [a o g| |].
+      * destruct (mem a seen).
+        -- inversion H; subst. split; [constructor; auto; simpl; intros; lia | simpl; intros; lia].
+        -- destruct (walkc p fa o (a :: seen) c) as [[[r1 l1] c1]|] eqn:W1; [|discriminate].
+           destruct (walkc p fa g (a :: seen) c1) as [[[r2 l2] c2]|] eqn:W2; [|discriminate].
+           inversion H; subst. clear H.
+           destruct (IHfa _ _ _ _ _ _ W1 Hc) as [Hc1 F1]. destruct (IHfa _ _ _ _ _ _ W2 Hc1) as [Hc2 F2].
+           assert (G : snd (combine (count rs) r1 r2) < MAXU -> exists h, FinH p entry (snd (combine (count rs) r1 r2)) h).
+           { unfold combine. simpl. intros L. destruct (satadd_fin _ _ _ L) as [L1 L2].
+             destruct (F1 L1) as [h1 A1]. destruct (F2 L2) as [h2 A2]. eexists. eapply FH_alt; eauto. }
+           split; auto. constructor; auto.
+      * inversion H; subst.
+        assert (G : exists h, FinH p entry (count rs) h) by (exists O; eapply FH_match; eauto).
+        split; [constructor; auto|]; simpl; auto.
+      * inversion H; subst. split; [constructor; auto; simpl; intros; lia | simpl; intros; lia].
+Qed.
+
+(* on a finite tree whose height is below the trees of all alternations in [seen], the walks compute its maximum *)
+Definition above (p : prog) (seen : list nat) (h : nat) : Prop :=
+  forall a m' h', In a seen -> FinH p a m' h' -> (h < h')%nat.
+
+Lemma above_push : forall p seen pc rs a o g m h hc, lin p (lin_fuel p) pc = Some (rs, LAlt a o g) ->
+  FinH p pc m h -> above p seen h -> (hc < h)%nat -> above p (a :: seen) hc.
+Proof.
+  intros p seen pc rs a o g m h hc Hl HF Hab Hlt a' m' h' [E | Hin] HF'.
+  - subst a'. destruct (FinH_at_alt _ _ _ _ _ _ _ _ Hl HF) as [ma Ha].
+    destruct (FinH_det _ _ _ _ Ha _ _ HF') as [_ E]. lia.
+  - specialize (Hab _ _ _ Hin HF'). lia.
+Qed.
+
+Lemma walk_on_fin : forall p pc m h, FinH p pc m h -> forall fa seen r, above p seen h ->
+  walk p fa pc seen = Some r -> snd r = m.
+Proof.
+  intros p pc m h HF. induction HF as [pc rs Hl | pc rs a o g m1 h1 m2 h2 Hl HF1 IHHF1 HF2 IHHF2]; intros fa seen r Hab H; (destruct fa; [discriminate|]); rewrite walk_S in H; rewrite Hl in H; cbv zeta in H.
+  - inversion H; reflexivity.
+  - pose proof (FH_alt _ _ _ _ _ _ _ _ _ _ Hl HF1 HF2) as HFpc.
+    destruct (mem a seen) eqn:Hm.
+    + exfalso. apply mem_In in Hm. destruct (FinH_at_alt _ _ _ _ _ _ _ _ Hl HFpc) as [ma Ha].
+      specialize (Hab _ _ _ Hm Ha). lia.
+    + destruct (walk p fa o (a :: seen)) as [r1|] eqn:W1; [|discriminate].
+      destruct (walk p fa g (a :: seen)) as [r2|] eqn:W2; [|discriminate].
+      inversion H; subst. unfold combine. simpl.
+      rewrite (IHHF1 _ _ _ (above_push _ _ _ _ _ _ _ _ _ h1 Hl HFpc Hab ltac:(lia)) W1).
+      rewrite (IHHF2 _ _ _ (above_push _ _ _ _ _ _ _ _ _ h2 Hl HFpc Hab ltac:(lia)) W2). reflexivity.
+Qed.
+
+Definition cache_max (p : prog) (c : cache) : Prop :=
+  Forall (fun kv => forall m h, FinH p (fst kv) m h -> snd (fst (snd kv)) = m) c.
+
+Lemma walkc_on_fin : forall p pc m h, FinH p pc m h -> forall fa seen c r ls c', above p seen h -> cache_max p c ->
+  walkc p fa pc seen c = Some (r, ls, c') -> snd r = m /\ cache_max p c'.
+Proof.
+  intros p pc m h HF. induction HF as [pc rs Hl | pc rs a o g m1 h1 m2 h2 Hl HF1 IHHF1 HF2 IHHF2]; intros fa seen c r ls c' Hab Hc H0.
+  - pose proof (FH_match _ _ _ Hl) as HFpc.
+    assert (Hit : forall r0 l0, lookup pc c = Some (r0, l0) -> snd r0 = count rs).
+    { intros r0 l0 L. apply lookup_In in L. unfold cache_max in Hc. rewrite Forall_forall in Hc. apply (Hc _ L _ _ HFpc). }
+    destruct fa.
+    + rewrite walkc_O in H0. unfold cache_hit in H0. destruct (lookup pc c) as [[r0 l0]|] eqn:L; [|discriminate].
+      destruct (forallb (fun l => mem l seen) l0); [|discriminate]. inversion H0; subst. split; auto. eapply Hit; eauto.
+    + rewrite walkc_S in H0. unfold cache_hit in H0. destruct (lookup pc c) as [[r0 l0]|] eqn:L.
+      * destruct (forallb (fun l => mem l seen) l0).
+        -- inversion H0; subst. split; auto. eapply Hit; eauto.
+        -- rewrite Hl in H0. cbv zeta in H0. inversion H0; subst. split; auto. constructor; auto.
+           simpl. intros m' h' F'. destruct (FinH_det _ _ _ _ HFpc _ _ F'). auto.
+      * rewrite Hl in H0. cbv zeta in H0. inversion H0; subst. split; auto. constructor; auto.
+        simpl. intros m' h' F'. destruct (FinH_det _ _ _ _ HFpc _ _ F'). auto.
+  - pose proof (FH_alt _ _ _ _ _ _ _ _ _ _ Hl HF1 HF2) as HFpc.
+    assert (Hit : forall r0 l0, lookup pc c = Some (r0, l0) -> snd r0 = satadd (count rs) (N.max m1 m2)).
+    { intros r0 l0 L. apply lookup_In in L. unfold cache_max in Hc. rewrite Forall_forall in Hc. apply (Hc _ L _ _ HFpc). }
+    assert (Compute : forall fa', match lin p (lin_fuel p) pc with
+        | None => None
+        | Some (rs, e) =>
+          let k := count rs in
+          match e with
+          | LMatch => Some ((k, k), [], store pc ((k, k), []) c)
+          | LFail => Some (INF, [], store pc (INF, []) c)
+          | LAlt a o g =>
+            if mem a seen then Some (INF, [a], store pc (INF, [a]) c)
+            else match walkc p fa' o (a :: seen) c with
+                 | None => None
+                 | Some (r1, l1, c1) =>
+                   match walkc p fa' g (a :: seen) c1 with
+                   | None => None
+                   | Some (r2, l2, c2) =>
+                     let r := combine k r1 r2 in
+                     let ls := drop a l1 ++ drop a l2 in
+                     Some (r, ls, store pc (r, ls) c2)
+                   end
+                 end
+          end
+        end = Some (r, ls, c') -> snd r = satadd (count rs) (N.max m1 m2) /\ cache_max p c').
+    { intros fa' H1. rewrite Hl in H1. cbv zeta in H1.
+      destruct (mem a seen) eqn:Hm.
+      - exfalso. apply mem_In in Hm. destruct (FinH_at_alt _ _ _ _ _ _ _ _ Hl HFpc) as [ma Ha].
+        specialize (Hab _ _ _ Hm Ha). lia.
+      - destruct (walkc p fa' o (a :: seen) c) as [[[r1 l1] c1]|] eqn:W1; [|discriminate].
+        destruct (walkc p fa' g (a :: seen) c1) as [[[r2 l2] c2]|] eqn:W2; [|discriminate].
+        inversion H1; subst.
+        destruct (IHHF1 _ _ _ _ _ _ (above_push _ _ _ _ _ _ _ _ _ h1 Hl HFpc Hab ltac:(lia)) Hc W1) as [E1 Hc1].
+        destruct (IHHF2 _ _ _ _ _ _ (above_push _ _ _ _ _ _ _ _ _ h2 Hl HFpc Hab ltac:(lia)) Hc1 W2) as [E2 Hc2].
+        unfold combine. simpl. rewrite E1, E2. split; auto. constructor; auto.
+        simpl. intros m' h' F'. destruct (FinH_det _ _ _ _ HFpc _ _ F'). auto. }
+    destruct fa.
+    + rewrite walkc_O in H0. unfold cache_hit in H0. destruct (lookup pc c) as [[r0 l0]|] eqn:L; [|discriminate].
+      destruct (forallb (fun l => mem l seen) l0); [|discriminate]. inversion H0; subst. split; auto. eapply Hit; eauto.
+    + rewrite walkc_S in H0. unfold cache_hit in H0. destruct (lookup pc c) as [[r0 l0]|] eqn:L.
+      * destruct (forallb (fun l => mem l seen) l0).
+        -- inversion H0; subst. split; auto. eapply Hit; eauto.
+        -- apply (Compute fa). exact H0.
+      * apply (Compute fa). exact H0.
+Qed.
+
+Lemma walkc_le_snd : forall p fa entry seen c r ls c', walkc p fa entry seen c = Some (r, ls, c') ->
+  Forall (fun kv => snd (fst (snd kv)) <= MAXU) c ->
+  Forall (fun kv => snd (fst (snd kv)) <= MAXU) c' /\ snd r <= MAXU.
+Proof.
+  induction fa; intros entry seen c r ls c' H Hc.
+  - rewrite walkc_O in H. unfold cache_hit in H. destruct (lookup entry c) as [[r0 l0]|] eqn:L; [|discriminate].
+    destruct (forallb (fun l => mem l seen) l0); [|discriminate]. inversion H; subst. split; auto.
+    apply lookup_In in L. rewrite Forall_forall in Hc. apply (Hc _ L).
+  - rewrite walkc_S in H. destruct (cache_hit entry seen c) as [[r0 l0]|] eqn:CH.
+    + unfold cache_hit in CH. destruct (lookup entry c) as [[r1 l1]|] eqn:L; [|discriminate].
+      destruct (forallb (fun l => mem l seen) l1); [|discriminate]. inversion CH; subst. inversion H; subst. split; auto.
+      apply lookup_In in L. rewrite Forall_forall in Hc. apply (Hc _ L).
+    + clear CH. destruct (lin p (lin_fuel p) entry) as [[rs e]|]; [|discriminate]. cbv zeta in H.
+      destruct e as [a o g| |].
+      * destruct (mem a seen).
+        -- inversion H; subst. simpl. split; [constructor; auto; simpl; lia | lia].
+        -- destruct (walkc p fa o (a :: seen) c) as [[[r1 l1] c1]|] eqn:W1; [|discriminate].
+           destruct (walkc p fa g (a :: seen) c1) as [[[r2 l2] c2]|] eqn:W2; [|discriminate].
+           inversion H; subst. destruct (IHfa _ _ _ _ _ _ W1 Hc) as [Hc1 _]. destruct (IHfa _ _ _ _ _ _ W2 Hc1) as [Hc2 _].
+           pose proof (combine_le (count rs) r1 r2) as [_ K]. split; auto. constructor; auto.
+      * inversion H; subst. simpl. assert (count rs <= MAXU) by (rewrite count_cap; unfold cap; lia).
+        split; auto. constructor; auto.
+      * inversion H; subst. simpl. split; [constructor; auto; simpl; lia | lia].
+Qed.
+
+Lemma above_nil : forall p h, above p [] h.
+Proof. intros p h a m' h' []. Qed.
+
+(* the memo table changes neither bound *)
+Theorem cache_transparent_max : forall p r rc,
+  accepted_length p = Some r -> accepted_length_cached p = Some rc -> snd rc = snd r.
+Proof.
+  intros p r rc H Hc. unfold accepted_length in H. unfold accepted_length_cached in Hc.
+  destruct (walkc p (alt_fuel p) (start p) [] []) as [[[r0 l] c]|] eqn:E; [|discriminate]. inversion Hc; subst r0. clear Hc.
+  destruct (walk_le _ _ _ _ _ H) as [_ L].
+  destruct (walkc_le_snd _ _ _ _ _ _ _ _ E) as [_ Lc]; [constructor|].
+  destruct (N.eq_dec (snd r) MAXU) as [E1 | E1]; destruct (N.eq_dec (snd rc) MAXU) as [E2 | E2]; try congruence.
+  - (* cached finite *)
+    destruct (walkc_fin _ _ _ _ _ _ _ _ E) as [_ F]; [constructor|]. destruct F as [h F]; [lia|].
+    symmetry. eapply walk_on_fin; eauto. apply above_nil.
+  - destruct (walk_fin _ _ _ _ _ H) as [h F]; [lia|].
+    destruct (walkc_on_fin _ _ _ _ F _ _ _ _ _ _ (above_nil p h) (Forall_nil _) E) as [K _]. exact K.
+  - destruct (walk_fin _ _ _ _ _ H) as [h F]; [lia|].
+    destruct (walkc_on_fin _ _ _ _ F _ _ _ _ _ _ (above_nil p h) (Forall_nil _) E) as [K _]. exact K.
+Qed.
